@@ -350,3 +350,49 @@ Proof. reflexivity. Qed.
 Theorem interp_get_url_after_anchor_is_model url h a :
   interp_get_url_after_anchor url h a = get_url_after_anchor url h a.
 Proof. reflexivity. Qed.
+
+(* ====================================================================================== *)
+(* RegexManager (Generated.RegexMgrGen)                                                    *)
+(* ====================================================================================== *)
+Import RegexMgrGen.
+
+Definition mask_method (sh : shape) (m : string) : option bool :=
+  if String.eqb m "is_right_anchor" then Some (s_ra sh)
+  else if String.eqb m "is_left_anchor" then Some (s_la sh)
+  else if String.eqb m "is_complete_regex" then Some (s_cr sh)
+  else if String.eqb m "is_regex" then Some (s_rx sh)
+  else if String.eqb m "is_hostname_anchor" then Some (s_hn sh)
+  else None.
+(* what make_regexp hands to the parameter [p] of compile_regex *)
+Definition param_flag (sh : shape) (p : string) : option bool :=
+  match assoc p make_regexp_args with Some m => mask_method sh m | None => None end.
+
+Section RegexMgr.
+  Variable re_ok : str -> bool.
+  Variable re_match : str -> str -> bool.
+  (* RegexManager::matches on a fresh manager, with the arguments as make_regexp passes them *)
+  Definition interp_regex_manager_matches (sh : shape) (fs : list str) (s : str) : option bool :=
+    if negb (String.eqb no_regex_when "!is_regex&&!is_complete_regex") then None else
+    if negb (s_rx sh) && negb (s_cr sh) then Some true else
+    match assoc "filters" make_regexp_args, param_flag sh "is_right_anchor", param_flag sh "is_left_anchor",
+          param_flag sh "is_complete_regex" with
+    | Some f, Some ra, Some la, Some cr =>
+        if String.eqb f "filters" then Some (is_match re_ok re_match (compile_regex fs ra la cr) s) else None
+    | _, _, _, _ => None
+    end.
+  Theorem interp_regex_manager_matches_is_model sh fs s :
+    interp_regex_manager_matches sh fs s = Some (regex_manager_matches re_ok re_match sh fs s).
+  Proof.
+    unfold interp_regex_manager_matches, regex_manager_matches.
+    destruct (negb (s_rx sh) && negb (s_cr sh)); reflexivity.
+  Qed.
+End RegexMgr.
+
+(* a discarded entry is rebuilt by the very expression that builds a new entry: the regex kept at a
+   key is a function of (mask, filters) of the rule, however often it was discarded *)
+Theorem recreate_is_create : recreate_expr = create_expr.
+Proof. reflexivity. Qed.
+Theorem regex_lifecycle_shape :
+  discard_sets_regex_none = true /\ clear_empties_map = true /\
+  compile_regex_params = ["filters"; "is_right_anchor"; "is_left_anchor"; "is_complete_regex"].
+Proof. repeat split. Qed.
